@@ -13,6 +13,9 @@ package main
 //     under AES-CFB, to garbage), blobs that decrypt to `x:y` (`rt-shape-*`),
 //   * the issuer: static, or derived from the request (op.IssuerFromHost / IssuerFromForwardedOrHost) with 2-3 virtual issuers on ONE
 //     provider; tokens of issuer A are presented at issuer B and vice versa, in both orders (`cross-issuer-*`),
+//     over a storage that partitions its records by the issuer of the context (`storage-partitioned`) or keeps ONE table for all
+//     issuers (`storage-flat`, `flat-cross-issuer-*`: opaque / refresh tokens are then found under every issuer, JWT access tokens
+//     must still be refused elsewhere by the library's own check of the `iss` claim),
 //   * TIME: the lifetimes the storage gives its access / refresh tokens (`ttl-*`: default 5 min / 5 h; `past`: the stored expiration is
 //     already behind the clock when the token is handed out; `short`: 0.3-0.9 s, with requests placed just before / at / just after the
 //     expiry edges - the storage's expiration, the second the exp claim of a JWT is cut to, and the same shifted by the client's clock
@@ -21,11 +24,23 @@ package main
 //   * storage FAULTS at a chosen call of a request of the history: TerminateSession / TerminateSessionFromRequest at end_session,
 //     RevokeToken / GetRefreshTokenInfo at revocation, TokenRequestByRefreshToken at the refresh grant and at token exchange
 //     (`fault-*`), on storages with and without the optional op.CanTerminateSessionFromRequest (`storage-termfromreq`); afterwards the
-//     tokens concerned are used again.
+//     tokens concerned are used again,
+//   * SUBJECTS: users whose subject identifier contains the separator of the opaque token format (`<token id>:<subject>`) once or
+//     several times (URN / DID / idp:id style), at its start or end, percent-encoded, next to other separator-like bytes
+//     (`sub-*`), for every token kind (opaque, JWT, refresh, exchange-issued), in revoke -> use sequences at every endpoint,
+//   * tokens ISSUED BY TOKEN EXCHANGE are tokens of the provider like any other: they are registered (`issue` line, `via=exchange`)
+//     and used / revoked / tampered with afterwards; some exchanges ask for scopes (`exchange-scope-*`).
+//
+// Reproducibility: every history draws from its own PRNG (seeded from the stream's PRNG, one draw per history), case ids are
+// <history index> * c08Stride + <line of the history>, crypto/rand.Reader (AES IVs of the opaque tokens: what a bit flip decrypts to)
+// is replaced by a per-history deterministic reader for the duration of the stream, and no random choice is skipped or added
+// depending on the clock.  `vharness -only <case>` therefore replays exactly the history of that case (and only runs that one).
+// What stays clock dependent is the outcome of requests placed on an expiry edge (`ttl-short` / `ttl-past` histories).
 
 import (
 	"bufio"
 	"context"
+	crand "crypto/rand"
 	"crypto/sha256"
 	"encoding/base64"
 	"encoding/hex"
@@ -36,7 +51,10 @@ import (
 	"log/slog"
 	"net/http"
 	"net/url"
+	"os"
+	"slices"
 	"sort"
+	"strconv"
 	"strings"
 	"time"
 
@@ -117,6 +135,75 @@ type c08Opts struct {
 	expiryByClaim bool          // refstore.Store.JWTExpiryByClaim
 	termFromReq   bool          // the storage implements op.CanTerminateSessionFromRequest
 	sigAlg        string        // the algorithm the provider signs its tokens with ("" = RS256, the verifiers' default)
+	flat          bool          // multi-issuer provider over ONE token table: the storage does not partition its records by issuer
+}
+
+// ---------------------------------------------------------------- reproducibility
+
+const c08Stride = 1000 // case id = history index * c08Stride + line within the history
+
+// c08Entropy: crypto/rand.Reader for the duration of one history (AES IVs, so that a replayed history hands out the same opaque
+// token strings and a flipped character decrypts to the same plaintext)
+type c08Entropy struct{ r *hx.Rand }
+
+func (e *c08Entropy) Read(p []byte) (int, error) {
+	for i := range p {
+		p[i] = byte(e.r.U64() >> 17)
+	}
+	return len(p), nil
+}
+
+// c08OnlyHistory: the history a replay (`vharness -only <case id>`) asks for, -1 = all
+func c08OnlyHistory() int {
+	for i, a := range os.Args {
+		v := ""
+		switch {
+		case (a == "-only" || a == "--only") && i+1 < len(os.Args):
+			v = os.Args[i+1]
+		case strings.HasPrefix(a, "-only="):
+			v = strings.TrimPrefix(a, "-only=")
+		case strings.HasPrefix(a, "--only="):
+			v = strings.TrimPrefix(a, "--only=")
+		}
+		if n, err := strconv.Atoi(v); err == nil && v != "" {
+			return n / c08Stride
+		}
+	}
+	return -1
+}
+
+func c08Hash(s string) uint64 {
+	h := sha256.Sum256([]byte(s))
+	var v uint64
+	for _, b := range h[:8] {
+		v = v<<8 | uint64(b)
+	}
+	return v
+}
+
+// c08Subjects: the users of a history. Beside two plain ones, identifiers that contain the separator of the opaque access-token
+// format and other bytes a parser might trip over
+var c08OddSubjects = []string{
+	"urn:example:user:alice", // URN: several colons
+	"did:web:example.com:bob", // DID
+	"idp:42",                  // one colon (federated "provider:id")
+	"a%3Ab",                   // a percent-encoded colon: nobody may decode it
+	"carol|t1;x=y&z+w",        // other separator-like bytes
+	"dave:",                   // ends with the separator
+	":erin",                   // starts with it
+	"at1:user1",               // looks like the content of another opaque token
+}
+
+func c08SubKind(sub string) string {
+	switch n := strings.Count(sub, ":"); {
+	case n == 0 && strings.ContainsAny(sub, "%|;&+="):
+		return "sepbytes"
+	case n == 0:
+		return "plain"
+	case n == 1:
+		return "one-colon"
+	}
+	return "many-colons"
 }
 
 // ---------------------------------------------------------------- the bed: one provider, possibly several virtual issuers
@@ -135,7 +222,10 @@ func c08NewBed(router, issMode string, hosts []string, mint func(string) string,
 		alg = o.sigAlg
 	}
 	st := refstore.New(refstore.SigningKeySpec{Kid: "sig1", Alg: jose.SignatureAlgorithm(alg), Priv: key.Priv, Pub: key.Pub})
-	st.MultiTenant = issMode != "static" // request-derived issuers: the storage partitions its records by op.IssuerFromContext(ctx)
+	// request-derived issuers: the storage partitions its records by op.IssuerFromContext(ctx) (as the repo's multi-issuer example) -
+	// or, `flat`, keeps one table for all virtual issuers: the documented Storage contract does not demand partitioning, and for
+	// self-contained (JWT) access tokens the LIBRARY checks the `iss` claim against the issuer of the request
+	st.MultiTenant = issMode != "static" && !o.flat
 	st.JWTExpiryByClaim = o.expiryByClaim
 	if o.attl != 0 {
 		st.AccessTTL = o.attl
@@ -269,13 +359,17 @@ func c08Stream(r *hx.Rand, tier string, n int, w *bufio.Writer) map[string]int {
 		}
 	}
 	stats := map[string]int{}
-	sy := newSymbols()
+	var sy *symbols
 	caseNo := 0
 	h0 := 0
 	emit := func(l *hx.Line) {
 		fmt.Fprintln(w, l.String())
 		caseNo++
 	}
+	hx.Keys() // the key ring is made with the real entropy source, before it is replaced
+	master, only := r, c08OnlyHistory()
+	realEntropy := crand.Reader
+	defer func() { crand.Reader = realEntropy }()
 	line := func(opName string) *hx.Line {
 		return hx.NewLine("C08").I("case", int64(caseNo)).I("h0", int64(h0)).S("op", opName)
 	}
@@ -284,6 +378,15 @@ func c08Stream(r *hx.Rand, tier string, n int, w *bufio.Writer) map[string]int {
 		maxOps = 40
 	}
 	for h := 0; h < n; h++ {
+		// every history has its own PRNG and its own entropy; a replay runs only the history asked for
+		hseed := master.U64()
+		if only >= 0 && h != only {
+			continue
+		}
+		r := hx.NewRand(hseed)
+		crand.Reader = &c08Entropy{r: hx.NewRand(hseed ^ 0xC08C08)}
+		sy = newSymbols()
+		caseNo = h * c08Stride
 		router := hx.Pick(r, "provider", "legacy")
 		issMode := hx.Pick(r, "static", "static", "static", "static", "host", "host", "host", "forwarded")
 		hosts := []string{""}
@@ -295,10 +398,11 @@ func c08Stream(r *hx.Rand, tier string, n int, w *bufio.Writer) map[string]int {
 		mint := func(inner string) string { return inner }
 		switch rtShape {
 		case "blob": // an opaque random string, as most storages hand out: under AES-CFB it always "decrypts" (to garbage)
-			mint = func(string) string {
+			mint = func(inner string) string { // (a function of the history and the inner id, not of the order of the calls)
+				rr := hx.NewRand(hseed ^ c08Hash(inner))
 				b := make([]byte, 32)
 				for i := range b {
-					b[i] = byte(r.Intn(256))
+					b[i] = byte(rr.Intn(256))
 				}
 				return base64.RawURLEncoding.EncodeToString(b)
 			}
@@ -328,6 +432,7 @@ func c08Stream(r *hx.Rand, tier string, n int, w *bufio.Writer) map[string]int {
 		o.expiryByClaim = r.Chance(60)
 		o.termFromReq = r.Chance(30)
 		o.sigAlg = hx.Pick(r, "", "", "", "", "", "RS512", "RS384", "PS256")
+		o.flat = r.Chance(35) && issMode != "static" // (drawn for every history)
 		skewJWT := hx.Pick(r, 0, 0, time.Second, 2*time.Second, 30*time.Second, 30*time.Second, time.Hour, time.Hour)
 		skewWeb := hx.Pick(r, 0, 0, 0, 30*time.Second)
 		skewPub := hx.Pick(r, 0, 0, 5*time.Second)
@@ -342,6 +447,11 @@ func c08Stream(r *hx.Rand, tier string, n int, w *bufio.Writer) map[string]int {
 		}
 		if o.termFromReq {
 			stats["storage-termfromreq"]++
+		}
+		if o.flat {
+			stats["storage-flat"]++
+		} else if issMode != "static" {
+			stats["storage-partitioned"]++
 		}
 		if o.sigAlg != "" {
 			stats["provider-sigalg-"+o.sigAlg]++
@@ -374,15 +484,23 @@ func c08Stream(r *hx.Rand, tier string, n int, w *bufio.Writer) map[string]int {
 		for _, fc := range cls {
 			bed.Store.AddClient(fc.c)
 		}
-		bed.Store.AddUser("user1", nil)
-		bed.Store.AddUser("user2", nil)
+		// the users: two plain subjects and three identifiers with separator bytes
+		subjects := []string{"user1", "user2"}
+		for len(subjects) < 5 {
+			if s := hx.Pick(r, c08OddSubjects...); !slices.Contains(subjects, s) {
+				subjects = append(subjects, s)
+			}
+		}
+		for _, s := range subjects {
+			bed.Store.AddUser(s, nil)
+		}
 		byID := map[string]*flowClient{}
 		for _, fc := range cls {
 			byID[fc.c.ID] = fc
 		}
 		h0 = caseNo
 		l := line("reset").S("router", router).S("issuer", opbed.Issuer).S("issmode", issMode).L("hosts", hosts).S("rtshape", rtShape).
-			S("ttl", ttl).S("sigalg", bed.Cfg.SignAlg).B("byclaim", o.expiryByClaim).B("termfromreq", o.termFromReq).S("default", "https://op.example/logged-out")
+			S("ttl", ttl).S("sigalg", bed.Cfg.SignAlg).B("flat", o.flat).B("byclaim", o.expiryByClaim).B("termfromreq", o.termFromReq).S("default", "https://op.example/logged-out")
 		clientsKV(l, cls)
 		ksLinePub(l, "published", []pubKey{{k: bed.SignKey, kid: "sig1", use: "sig"}})
 		emit(l)
@@ -394,7 +512,7 @@ func c08Stream(r *hx.Rand, tier string, n int, w *bufio.Writer) map[string]int {
 		}
 		do := func(req *http.Request, host string) *opbed.Resp { return bed.Do(cb.at(req, host)) }
 		// register the tokens of a successful token response
-		register := func(tr *opbed.Resp, host string, jwt bool) *c08Token {
+		register := func(tr *opbed.Resp, host string, jwt bool, via string) *c08Token {
 			ids := bed.Store.TokenIDs()
 			rec := bed.Store.Token(ids[len(ids)-1])
 			nGrant++
@@ -425,9 +543,12 @@ func c08Stream(r *hx.Rand, tier string, n int, w *bufio.Writer) map[string]int {
 				sy.adopt(t.idToken, bed.SignKey)
 			}
 			toks = append(toks, t)
+			// `openid`: the token carries the scope under which the reference storage hands out the `sub` claim at userinfo
 			emit(il.S("label", t.label).S("id", t.id).S("client", t.client).S("sub", t.subject).L("aud", rec.Audience).B("jwt", t.jwt).
-				S("iss", cb.issuerOf(host)).S("rt", t.refresh).S("rtlabel", t.rtLabel).S("grant", t.grant).
+				S("iss", cb.issuerOf(host)).S("rt", t.refresh).S("rtlabel", t.rtLabel).S("grant", t.grant).S("via", via).
+				B("openid", slices.Contains(rec.Scopes, oidc.ScopeOpenID)).
 				I("exp", t.exp.UnixNano()).I("skew", int64(t.skew)).I("now0", time.Now().UnixNano()))
+			stats["issued-"+c08What(t, false)+"-sub-"+c08SubKind(t.subject)]++
 			return t
 		}
 		live := func() []*c08Token {
@@ -448,6 +569,9 @@ func c08Stream(r *hx.Rand, tier string, n int, w *bufio.Writer) map[string]int {
 				for {
 					if h := hosts[r.Intn(len(hosts))]; h != t.host {
 						stats["cross-issuer-"+opName+"-"+what]++
+						if o.flat {
+							stats["flat-cross-issuer-"+opName+"-"+what]++
+						}
 						return h, true
 					}
 				}
@@ -480,7 +604,12 @@ func c08Stream(r *hx.Rand, tier string, n int, w *bufio.Writer) map[string]int {
 		}
 		// short lifetimes: wait until just before / at / just after one of the expiry edges of the token (bounded per history)
 		place := func(t *c08Token, refreshTok bool) {
-			if ttl != "short" || sleepLeft <= 0 || !r.Chance(70) {
+			if ttl != "short" {
+				return
+			}
+			// (all draws first: what is drawn must not depend on the clock)
+			wanted, edgeNo, offNo := r.Chance(70), r.Intn(6), r.Intn(3)
+			if sleepLeft <= 0 || !wanted {
 				return
 			}
 			exp := t.exp
@@ -494,9 +623,9 @@ func c08Stream(r *hx.Rand, tier string, n int, w *bufio.Writer) map[string]int {
 			if !refreshTok && t.jwt {
 				edges = append(edges, exp.Truncate(time.Second), exp.Add(t.skew).Truncate(time.Second))
 			}
-			e := edges[r.Intn(len(edges))]
+			e := edges[edgeNo%len(edges)]
 			off, name := -40*time.Millisecond, "before"
-			switch r.Intn(3) {
+			switch offNo {
 			case 1:
 				off, name = 2*time.Millisecond, "at"
 			case 2:
@@ -512,6 +641,11 @@ func c08Stream(r *hx.Rand, tier string, n int, w *bufio.Writer) map[string]int {
 			stats["edge-"+name]++
 		}
 
+		subStat := func(t *c08Token, opName string) {
+			if k := c08SubKind(t.subject); k != "plain" {
+				stats["sub-"+k+"-at-"+opName]++
+			}
+		}
 		var forceActor *c08Token // follow-ups: the token just revoked / logged out is presented as ACTOR of the next exchange
 		var opUserinfo, opIntrospect, opExchange, opRefresh func(t *c08Token, after string)
 		opUserinfo = func(t *c08Token, after string) {
@@ -530,9 +664,23 @@ func c08Stream(r *hx.Rand, tier string, n int, w *bufio.Writer) map[string]int {
 					l.S("o.sub", s)
 				}
 			}
+			if resp.Status >= 200 && resp.Status < 300 {
+				// the claims the answer carries (names of the members of its JSON body; a body that is no JSON object counts as one claim)
+				claims := []string{}
+				if resp.JSON != nil {
+					for k := range resp.JSON {
+						claims = append(claims, k)
+					}
+					sort.Strings(claims)
+				} else if len(strings.TrimSpace(string(resp.Body))) > 0 {
+					claims = append(claims, "?")
+				}
+				l.L("o.claims", claims)
+			}
 			if resp.Panicked {
 				l.S("obs", "panic")
 			}
+			subStat(t, "userinfo")
 			stats["op-userinfo"]++
 			if after != "" {
 				stats["after-"+after+"-userinfo"]++
@@ -577,6 +725,7 @@ func c08Stream(r *hx.Rand, tier string, n int, w *bufio.Writer) map[string]int {
 			if resp.Panicked {
 				l.S("obs", "panic")
 			}
+			subStat(t, "introspect")
 			stats["op-introspect"]++
 			if after != "" {
 				stats["after-"+after+"-introspect"]++
@@ -599,12 +748,19 @@ func c08Stream(r *hx.Rand, tier string, n int, w *bufio.Writer) map[string]int {
 			if asRefresh {
 				f.Set("subject_token_type", string(oidc.RefreshTokenType))
 			}
+			// some exchanges ask for scopes: the token they issue then carries claims at userinfo
+			if exScope := hx.Pick(r, "", "", "", "openid", "openid profile"); exScope != "" {
+				f.Set("scope", exScope)
+				stats["exchange-scope-"+strings.ReplaceAll(exScope, " ", "+")]++
+			}
 			l := line("exchange").S("tok", label).S("stype", stype).S("iss", cb.issuerOf(host)).B("cross", cross)
 			cb.presentedKV(l, sy, presented, asRefresh)
 			shapeKV(l, t)
 			// delegation: an ACTOR token next to the subject token - an opaque access token of this provider whose liveness is
 			// independent of the subject's (live / revoked / expired / session terminated / rotated away), half of the time a dead one
-			if forceActor != nil || r.Chance(35) {
+			// (all draws first: which tokens are dead depends on the clock, what is drawn must not)
+			withActor, preferDead, pickNo, garbageActor := r.Chance(35), r.Chance(50), int(r.U64()>>1), r.Chance(12)
+			if forceActor != nil || withActor {
 				a := forceActor
 				if a == nil {
 					var opaque, dead []*c08Token
@@ -616,13 +772,13 @@ func c08Stream(r *hx.Rand, tier string, n int, w *bufio.Writer) map[string]int {
 							}
 						}
 					}
-					if len(dead) > 0 && r.Chance(50) {
-						a = dead[r.Intn(len(dead))]
+					if len(dead) > 0 && preferDead {
+						a = dead[pickNo%len(dead)]
 					} else if len(opaque) > 0 {
-						a = opaque[r.Intn(len(opaque))]
+						a = opaque[pickNo%len(opaque)]
 					}
 				}
-				if forceActor == nil && r.Chance(12) {
+				if forceActor == nil && garbageActor {
 					// an actor token that is no token of this provider at all
 					f.Set("actor_token", "garbage-actor-token")
 					f.Set("actor_token_type", string(oidc.AccessTokenType))
@@ -657,11 +813,22 @@ func c08Stream(r *hx.Rand, tier string, n int, w *bufio.Writer) map[string]int {
 			if resp.Panicked {
 				l.S("obs", "panic")
 			}
+			subStat(t, "exchange")
 			stats["op-exchange-"+stype]++
 			if after != "" {
 				stats["after-"+after+"-exchange-"+stype]++
 			}
 			emit(l)
+			// the access token a token exchange issues is a token of this provider like any other: from now on it is used, revoked and
+			// tampered with like the ones of the code flow (only when it names a registered user: an exchange accepted on a tampered
+			// subject token - F-C08a - takes the garbled subject from it, and the reference storage knows no such user)
+			if resp.Status == 200 && resp.Str("access_token") != "" {
+				ids := bed.Store.TokenIDs()
+				if rec := bed.Store.Token(ids[len(ids)-1]); rec != nil && slices.Contains(subjects, rec.Subject) {
+					register(resp, host, false, "exchange")
+					stats["op-issue-by-exchange"]++
+				}
+			}
 		}
 		opRefresh = func(t *c08Token, after string) {
 			if t.refresh == "" {
@@ -695,7 +862,7 @@ func c08Stream(r *hx.Rand, tier string, n int, w *bufio.Writer) map[string]int {
 				if rotated {
 					t.gone = true
 				}
-				register(resp, host, t.jwt)
+				register(resp, host, t.jwt, "refresh")
 				stats["op-issue-by-refresh"]++
 			}
 		}
@@ -721,7 +888,10 @@ func c08Stream(r *hx.Rand, tier string, n int, w *bufio.Writer) map[string]int {
 			case kind <= 1: // issue through a real code flow, at one of the issuers
 				fc := issuers[r.Intn(len(issuers))]
 				host := hosts[r.Intn(len(hosts))]
-				sub := hx.Pick(r, "user1", "user2")
+				sub := subjects[r.Intn(2)]
+				if r.Chance(45) {
+					sub = subjects[2+r.Intn(len(subjects)-2)]
+				}
 				redirect := fc.c.Redirects[0]
 				q := url.Values{"client_id": {fc.c.ID}, "redirect_uri": {redirect}, "response_type": {"code"}, "scope": {"openid profile offline_access"}, "state": {"s"}}
 				verifier := ""
@@ -748,8 +918,9 @@ func c08Stream(r *hx.Rand, tier string, n int, w *bufio.Writer) map[string]int {
 				if tr.Status != 200 {
 					continue
 				}
-				register(tr, host, fc.c.TokenType == op.AccessTokenTypeJWT)
+				register(tr, host, fc.c.TokenType == op.AccessTokenTypeJWT, "code")
 				stats["op-issue"]++
+				stats["sub-"+c08SubKind(sub)]++
 			case kind == 2: // expire an access or a refresh token
 				t := hx.Pick(r, live()...)
 				if o.expiryByClaim && t.jwt && t.refresh == "" {
@@ -827,10 +998,16 @@ func c08Stream(r *hx.Rand, tier string, n int, w *bufio.Writer) map[string]int {
 				cb.presentedKV(l, sy, presented, asRefresh)
 				shapeKV(l, t)
 				auth := flowAuth(r, sy, l, caller, cls)
-				clear, faulted := withFault(l, false, "RevokeToken", "RevokeToken", "GetRefreshTokenInfo")
 				if ttl != "short" {
 					waitClearOfSecondEdge()
 				}
+				// is the genuine access token usable right now (does userinfo at its own issuer honour the string)
+				probe := func() bool { return do(bed.Get("/userinfo", nil, presented), t.host).Status == 200 }
+				genuineAT := !asRefresh && label != ""
+				if genuineAT {
+					l.B("o.usable", probe())
+				}
+				clear, faulted := withFault(l, false, "RevokeToken", "RevokeToken", "GetRefreshTokenInfo")
 				t0 := time.Now()
 				resp := do(bed.Form("/revoke", f, auth), host)
 				clear()
@@ -847,12 +1024,14 @@ func c08Stream(r *hx.Rand, tier string, n int, w *bufio.Writer) map[string]int {
 					if asRefresh {
 						l.B("o.effect", bed.Store.Refresh(cb.st.inner(t.refresh)) == nil)
 					} else {
-						l.B("o.effect", !bed.Store.TokenLive(t.id))
+						// the storage no longer holds it as usable - or the provider does not honour the string (any more)
+						l.B("o.effect", !bed.Store.TokenLive(t.id) || !probe())
 					}
 				}
 				if resp.Panicked {
 					l.S("obs", "panic")
 				}
+				subStat(t, "revoke")
 				stats["op-revoke"]++
 				emit(l)
 				if asRefresh && label != "" && who == "owner" && hint == "access_token" && resp.Status == 200 && !cross {
@@ -889,9 +1068,9 @@ func c08Stream(r *hx.Rand, tier string, n int, w *bufio.Writer) map[string]int {
 				if r.Chance(45) {
 					// an EXPIRED but validly signed ID token of this provider is still a valid logout hint
 					now := time.Now().Unix()
-					claims := fmt.Sprintf(`{"iss":"%s","sub":"%s","aud":["%s"],"azp":"%s","exp":%d,"iat":%d,"auth_time":%d}`,
-						cb.issuerOf(t.host), t.subject, t.client, t.client, now-3600, now-7200, now-7200)
-					if exp, err := sy.sign(bed.SignKey, bed.Cfg.SignAlg, "sig1", []byte(claims)); err == nil {
+					claims, _ := json.Marshal(map[string]any{"iss": cb.issuerOf(t.host), "sub": t.subject, "aud": []string{t.client}, "azp": t.client,
+						"exp": now - 3600, "iat": now - 7200, "auth_time": now - 7200})
+					if exp, err := sy.sign(bed.SignKey, bed.Cfg.SignAlg, "sig1", claims); err == nil {
 						hint = exp
 						stats["endsession-expired-hint"]++
 					}
